@@ -48,7 +48,7 @@ def classify(case, impl, model, oracle):
 CHECK = {
     "property": "C28",
     "props": "Props/C28.v",
-    "theorems": ["c28_exact", "c28_exact_fresh", "c28_invariant_init", "c28_invariant_step", "c28_progress", "c28_can_finish",
+    "theorems": ["c28_exact", "c28_exact_fresh", "c28_table_exact", "c28_table_projection", "c28_invariant_init", "c28_invariant_step", "c28_progress", "c28_can_finish",
                  "c28_cell_step_is_process_response", "c28_lockless_refuted"],
     "allowed_axioms": [],
     "suites": [{
@@ -75,7 +75,7 @@ CHECK = {
     ],
     "assumptions": ["all clock readings of the burst lie in an interval shorter than one second in which the bucket gets no refill "
                     "(cell_ok); the harness enforces < 0.8 s per run",
-                    "one stream = one bucket cell; other buckets and their locks are not part of the model"],
+                    "c28_table_exact: threads of other streams do not share the stream's bucket (a colliding stream evicts the entry and restarts the count — C26 c26_refines_mixed)"],
 }
 
 MANIFEST = {
